@@ -714,7 +714,7 @@ def run_ephemeris(ctx, E, rng):
     for body, b, label in todo:
         continuity_check(ctx, E, body, b, label)
         ctx.case(("cont", body, b), nontrivial=True)
-    ctx.sample({"continuity": "Moon position at JD 2457000.5 +- (1e-6, 3e-6) d: second difference across the 4-day interval boundary"})
+    ctx.sample({"continuity": "body positions at boundary + k 2^-20 d, k=-3,-1,0,1,3: velocity-free combinations across every 4/16/32-day interval boundary"})
     n = ctx.scale(3000, 200_000)
     bnd = _seg_boundaries(4.0)
     for i in range(n):
